@@ -10,68 +10,89 @@
 (*   Caught        load-failure kinds the loader handles ("eof","trunc","type")                  *)
 (*   GuardedRemove TRUE: a vanished file is tolerated by the remover; FALSE: `exists ; remove`    *)
 (*   Merge         TRUE for the config cache: the writer re-reads and merges under the lock        *)
+(*   RemovesStale  TRUE: a file whose fingerprint does not match is removed before anything else   *)
+(*                 (FALSE = the variant "leave it, make_cache rewrites it anyway")                   *)
+(*   ChecksFolder / ExistOk   how the cache folder is created in front of a write:                   *)
+(*                 ChecksFolder: `if not exists(folder)` first; ExistOk: makedirs(exist_ok=True)     *)
+(* The folder may be missing at the start (InitKinds contains "nofolder"); a file whose fingerprint  *)
+(* is current but whose content was merged from a stale file is "poisoned" - no loader can tell it   *)
+(* from a valid one, which is why NeverTrustStale is a property of the DESIGN.                       *)
 EXTENDS Naturals, Sequences, FiniteSets, TLC
-CONSTANTS Procs, MaxKills, Removes, Caught, GuardedRemove, Merge, InitKinds
-Kinds == {"missing", "empty", "partial", "valid", "stale", "junk"}
+CONSTANTS Procs, MaxKills, Removes, Caught, GuardedRemove, Merge, InitKinds, RemovesStale, ChecksFolder, ExistOk
+Kinds == {"missing", "empty", "partial", "valid", "stale", "junk", "poisoned"}
 VARIABLES file,     \* content kind of the cache file
           lock,     \* holder of the advisory lock or "none"
           kills,    \* crashes so far
           pc, saw, res,
           out,      \* per process: "run" | "ok" | "fatal" | "killed"
-          used      \* per process: "none" | "cache" | "rebuilt" - where its answers come from
-vars == <<file, lock, kills, pc, saw, res, out, used>>
-LoadResult(k) == CASE k = "valid" -> "ok" [] k = "stale" -> "stale" [] k = "empty" -> "eof"
+          used,     \* per process: "none" | "cache" | "rebuilt" | "taint" - where its answers come from (taint: entries of a stale file among them)
+          dir,      \* the cache folder exists
+          sawdir,   \* per process: what its test for the folder said
+          taint     \* per process: its in-memory data holds entries merged from a stale (or poisoned) file
+vars == <<file, lock, kills, pc, saw, res, out, used, dir, sawdir, taint>>
+LoadResult(k) == CASE k = "valid" -> "ok" [] k = "poisoned" -> "okp" [] k = "stale" -> "stale" [] k = "empty" -> "eof"
                    [] k = "partial" -> "trunc" [] k = "junk" -> "type" [] k = "missing" -> "nofile"
-Init == /\ file \in InitKinds /\ lock = "none" /\ kills = 0
+Init == /\ \/ file \in InitKinds \ {"nofolder"} /\ dir = TRUE
+           \/ "nofolder" \in InitKinds /\ file = "missing" /\ dir = FALSE
+        /\ sawdir = [p \in Procs |-> FALSE] /\ taint = [p \in Procs |-> FALSE]
+        /\ lock = "none" /\ kills = 0
         /\ pc = [p \in Procs |-> "Exists"] /\ saw = [p \in Procs |-> FALSE] /\ res = [p \in Procs |-> "none"]
         /\ out = [p \in Procs |-> "run"] /\ used = [p \in Procs |-> "none"]
 Goto(p, l) == pc' = [pc EXCEPT ![p] = l]
 Exists(p) == /\ pc[p] = "Exists" /\ saw' = [saw EXCEPT ![p] = file # "missing"]
-             /\ Goto(p, IF file # "missing" THEN "Acquire" ELSE "Rebuild") /\ UNCHANGED <<file, lock, kills, res, out, used>>
-Acquire(p) == pc[p] = "Acquire" /\ lock = "none" /\ lock' = p /\ Goto(p, "OpenRead") /\ UNCHANGED <<file, kills, saw, res, out, used>>
+             /\ Goto(p, IF file # "missing" THEN "Acquire" ELSE "Rebuild") /\ UNCHANGED <<file, lock, kills, res, out, used, dir, sawdir, taint>>
+Acquire(p) == pc[p] = "Acquire" /\ lock = "none" /\ lock' = p /\ Goto(p, "OpenRead") /\ UNCHANGED <<file, kills, saw, res, out, used, dir, sawdir, taint>>
 OpenRead(p) == /\ pc[p] = "OpenRead"
                /\ IF file = "missing" THEN res' = [res EXCEPT ![p] = "nofile"] /\ Goto(p, "Release1")
                                       ELSE res' = res /\ Goto(p, "Load")
-               /\ UNCHANGED <<file, lock, kills, saw, out, used>>
-Load(p) == pc[p] = "Load" /\ res' = [res EXCEPT ![p] = LoadResult(file)] /\ Goto(p, "Release1") /\ UNCHANGED <<file, lock, kills, saw, out, used>>
-Release1(p) == pc[p] = "Release1" /\ lock' = "none" /\ Goto(p, "Decide") /\ UNCHANGED <<file, kills, saw, res, out, used>>
+               /\ UNCHANGED <<file, lock, kills, saw, out, used, dir, sawdir, taint>>
+Load(p) == pc[p] = "Load" /\ res' = [res EXCEPT ![p] = LoadResult(file)] /\ Goto(p, "Release1") /\ UNCHANGED <<file, lock, kills, saw, out, used, dir, sawdir, taint>>
+Release1(p) == pc[p] = "Release1" /\ lock' = "none" /\ Goto(p, "Decide") /\ UNCHANGED <<file, kills, saw, res, out, used, dir, sawdir, taint>>
 Decide(p) == /\ pc[p] = "Decide"
-             /\ CASE res[p] = "ok" -> used' = [used EXCEPT ![p] = "cache"] /\ out' = [out EXCEPT ![p] = "ok"] /\ Goto(p, "Fin")
+             /\ CASE res[p] \in {"ok", "okp"} -> used' = [used EXCEPT ![p] = IF res[p] = "okp" THEN "taint" ELSE "cache"] /\ out' = [out EXCEPT ![p] = "ok"] /\ Goto(p, "Fin")
                   [] res[p] = "nofile" -> Goto(p, "Rebuild") /\ UNCHANGED <<out, used>>
-                  [] res[p] = "stale" -> Goto(p, IF Removes THEN "RemoveStale" ELSE "Rebuild") /\ UNCHANGED <<out, used>>
+                  [] res[p] = "stale" -> Goto(p, IF Removes /\ RemovesStale THEN "RemoveStale" ELSE "Rebuild") /\ UNCHANGED <<out, used>>
                   [] res[p] \in Caught -> Goto(p, IF Removes THEN "RemoveBad" ELSE "Rebuild") /\ UNCHANGED <<out, used>>
                   [] OTHER -> out' = [out EXCEPT ![p] = "fatal"] /\ Goto(p, "Fin") /\ UNCHANGED used     \* uncaught exception
-             /\ UNCHANGED <<file, lock, kills, saw, res>>
+             /\ UNCHANGED <<file, lock, kills, saw, res, dir, sawdir, taint>>
 \* os.remove of a stale file: inside the try block, a vanished file raises FileNotFoundError which is caught -> handler
 RemoveStale(p) == /\ pc[p] = "RemoveStale"
                   /\ IF file = "missing" THEN file' = file /\ Goto(p, "RemoveBad") ELSE file' = "missing" /\ Goto(p, "Rebuild")
-                  /\ UNCHANGED <<lock, kills, saw, res, out, used>>
+                  /\ UNCHANGED <<lock, kills, saw, res, out, used, dir, sawdir, taint>>
 \* except-handler:  if os.path.exists(f): os.remove(f)     -- two steps
-RemoveBad(p) == pc[p] = "RemoveBad" /\ saw' = [saw EXCEPT ![p] = file # "missing"] /\ Goto(p, "RemoveBad2") /\ UNCHANGED <<file, lock, kills, res, out, used>>
+RemoveBad(p) == pc[p] = "RemoveBad" /\ saw' = [saw EXCEPT ![p] = file # "missing"] /\ Goto(p, "RemoveBad2") /\ UNCHANGED <<file, lock, kills, res, out, used, dir, sawdir, taint>>
 RemoveBad2(p) == /\ pc[p] = "RemoveBad2"
                  /\ IF ~saw[p] THEN file' = file /\ out' = out /\ Goto(p, "Rebuild")
                     ELSE IF file = "missing"
                          THEN IF GuardedRemove THEN file' = file /\ out' = out /\ Goto(p, "Rebuild")
                               ELSE file' = file /\ out' = [out EXCEPT ![p] = "fatal"] /\ Goto(p, "Fin")      \* FileNotFoundError inside the handler
                          ELSE file' = "missing" /\ out' = out /\ Goto(p, "Rebuild")
-                 /\ UNCHANGED <<lock, kills, saw, res, used>>
-Rebuild(p) == pc[p] = "Rebuild" /\ used' = [used EXCEPT ![p] = "rebuilt"] /\ Goto(p, "Acquire2") /\ UNCHANGED <<file, lock, kills, saw, res, out>>
-Acquire2(p) == pc[p] = "Acquire2" /\ lock = "none" /\ lock' = p /\ Goto(p, IF Merge THEN "MergeExists" ELSE "OpenTrunc") /\ UNCHANGED <<file, kills, saw, res, out, used>>
+                 /\ UNCHANGED <<lock, kills, saw, res, used, dir, sawdir, taint>>
+Rebuild(p) == pc[p] = "Rebuild" /\ used' = [used EXCEPT ![p] = "rebuilt"] /\ Goto(p, IF ChecksFolder THEN "DirCheck" ELSE "MkDir") /\ UNCHANGED <<file, lock, kills, saw, res, out, dir, sawdir, taint>>
+\* the folder in front of a write:  [if not os.path.exists(folder):]  os.makedirs(folder[, exist_ok=True])
+DirCheck(p) == pc[p] = "DirCheck" /\ sawdir' = [sawdir EXCEPT ![p] = dir] /\ Goto(p, IF dir THEN "Acquire2" ELSE "MkDir") /\ UNCHANGED <<file, lock, kills, saw, res, out, used, dir, taint>>
+MkDir(p) == /\ pc[p] = "MkDir"
+            /\ IF dir /\ ~ExistOk THEN out' = [out EXCEPT ![p] = "fatal"] /\ Goto(p, "Fin") /\ dir' = dir          \* FileExistsError outside every handler
+               ELSE dir' = TRUE /\ out' = out /\ Goto(p, "Acquire2")
+            /\ UNCHANGED <<file, lock, kills, saw, res, used, sawdir, taint>>
+Acquire2(p) == pc[p] = "Acquire2" /\ lock = "none" /\ lock' = p /\ Goto(p, IF Merge THEN "MergeExists" ELSE "OpenTrunc") /\ UNCHANGED <<file, kills, saw, res, out, used, dir, sawdir, taint>>
 \* make_cache: under the lock, re-read an existing file and merge; any failure here is swallowed and NOTHING is written
-MergeExists(p) == pc[p] = "MergeExists" /\ Goto(p, IF file = "missing" THEN "OpenTrunc" ELSE "MergeLoad") /\ UNCHANGED <<file, lock, kills, saw, res, out, used>>
+MergeExists(p) == pc[p] = "MergeExists" /\ Goto(p, IF file = "missing" THEN "OpenTrunc" ELSE "MergeLoad") /\ UNCHANGED <<file, lock, kills, saw, res, out, used, dir, sawdir, taint>>
 MergeLoad(p) == /\ pc[p] = "MergeLoad"
-                /\ Goto(p, IF LoadResult(file) \in {"ok", "stale"} THEN "OpenTrunc" ELSE "Release2")
-                /\ UNCHANGED <<file, lock, kills, saw, res, out, used>>
-OpenTrunc(p) == pc[p] = "OpenTrunc" /\ file' = "empty" /\ Goto(p, "Write1") /\ UNCHANGED <<lock, kills, saw, res, out, used>>
-Write1(p) == pc[p] = "Write1" /\ file' = "partial" /\ Goto(p, "Write2") /\ UNCHANGED <<lock, kills, saw, res, out, used>>
-Write2(p) == pc[p] = "Write2" /\ file' = "valid" /\ Goto(p, "Release2") /\ UNCHANGED <<lock, kills, saw, res, out, used>>
-Release2(p) == pc[p] = "Release2" /\ lock' = "none" /\ out' = [out EXCEPT ![p] = "ok"] /\ Goto(p, "Fin") /\ UNCHANGED <<file, kills, saw, res, used>>
+                /\ Goto(p, IF LoadResult(file) \in {"ok", "okp", "stale"} THEN "OpenTrunc" ELSE "Release2")
+                /\ taint' = [taint EXCEPT ![p] = @ \/ file \in {"stale", "poisoned"}]                      \* whatever unpickles is merged, unexamined
+                /\ used' = [used EXCEPT ![p] = IF file \in {"stale", "poisoned"} THEN "taint" ELSE @]
+                /\ UNCHANGED <<file, lock, kills, saw, res, out, dir, sawdir>>
+OpenTrunc(p) == pc[p] = "OpenTrunc" /\ file' = "empty" /\ Goto(p, "Write1") /\ UNCHANGED <<lock, kills, saw, res, out, used, dir, sawdir, taint>>
+Write1(p) == pc[p] = "Write1" /\ file' = "partial" /\ Goto(p, "Write2") /\ UNCHANGED <<lock, kills, saw, res, out, used, dir, sawdir, taint>>
+Write2(p) == pc[p] = "Write2" /\ file' = (IF taint[p] THEN "poisoned" ELSE "valid") /\ Goto(p, "Release2") /\ UNCHANGED <<lock, kills, saw, res, out, used, dir, sawdir, taint>>
+Release2(p) == pc[p] = "Release2" /\ lock' = "none" /\ out' = [out EXCEPT ![p] = "ok"] /\ Goto(p, "Fin") /\ UNCHANGED <<file, kills, saw, res, used, dir, sawdir, taint>>
 Kill(p) == /\ kills < MaxKills /\ out[p] = "run"
            /\ kills' = kills + 1 /\ out' = [out EXCEPT ![p] = "killed"] /\ Goto(p, "Fin")
            /\ lock' = IF lock = p THEN "none" ELSE lock              \* the kernel drops a dead holder's lock; the file stays as it is
-           /\ UNCHANGED <<file, saw, res, used>>
+           /\ UNCHANGED <<file, saw, res, used, dir, sawdir, taint>>
 Step(p) == Exists(p) \/ Acquire(p) \/ OpenRead(p) \/ Load(p) \/ Release1(p) \/ Decide(p) \/ RemoveStale(p) \/ RemoveBad(p) \/ RemoveBad2(p)
-           \/ Rebuild(p) \/ Acquire2(p) \/ MergeExists(p) \/ MergeLoad(p) \/ OpenTrunc(p) \/ Write1(p) \/ Write2(p) \/ Release2(p)
+           \/ Rebuild(p) \/ DirCheck(p) \/ MkDir(p) \/ Acquire2(p) \/ MergeExists(p) \/ MergeLoad(p) \/ OpenTrunc(p) \/ Write1(p) \/ Write2(p) \/ Release2(p)
 DoStep == \E p \in Procs : Step(p)
 DoKill == \E p \in Procs : Kill(p)
 Next == DoStep \/ DoKill
@@ -79,6 +100,7 @@ Spec == Init /\ [][Next]_vars /\ \A p \in Procs : WF_vars(Step(p))
 \* ---------------------------------------------------------------- the property at design level
 NoFatal == \A p \in Procs : out[p] # "fatal"                                      \* damaged cache never fatal
 NeverTrustDamaged == \A p \in Procs : used[p] = "cache" => res[p] = "ok"          \* answers from the cache only after a valid, current load
+NeverTrustStale == \A p \in Procs : used[p] # "taint"                              \* ... and never from entries that came out of a stale file
 MutualExclusion == \A p, q \in Procs : (pc[p] \in {"OpenRead", "Load", "Release1", "MergeExists", "MergeLoad", "OpenTrunc", "Write1", "Write2", "Release2"}
                                         /\ pc[q] \in {"OpenRead", "Load", "Release1", "MergeExists", "MergeLoad", "OpenTrunc", "Write1", "Write2", "Release2"}
                                         /\ out[p] = "run" /\ out[q] = "run") => p = q
